@@ -25,10 +25,10 @@ CLASSES = [1, 3, 4, 7, 0x25, 0x31, 0xff, 0]
 SUBS = [0x40c, 0x40e, 0x140, 0x301, 0x701, 0x2502, 0x1f07, 0x0, 0xffff]
 
 
-def gen_file(rng):
+def gen_file(rng, n_records=None, n_logs=None, kind=None):
     tids = [0, 1, 2, 77, rng.getrandbits(40)]
     recs = []
-    for i in range(rng.randrange(0, 60)):
+    for i in range(rng.randrange(0, 60) if n_records is None else n_records):
         c = rng.random()
         if c < 0.4:
             eid = (rng.choice(SUBS) << 16) | (rng.getrandbits(14) << 2)
@@ -45,12 +45,12 @@ def gen_file(rng):
     if recs:
         recs[0] = gen.nonzero_lead(recs[0])
     entries = [(t, 100 + k, b'proc%d' % k, b'') for k, t in enumerate(tids[:3])]
-    if rng.random() < 0.5:
+    if (rng.random() < 0.5) if kind is None else kind == 'v2':
         return {'kind': 'v2', 'data': wire.v2_file(entries, rng.choice((0, 8, 72)), recs), 'records': recs, 'logs': [],
                 'strings': {}}
     strings = logs.Strings(rng)
     raws = []
-    for _ in range(rng.randrange(0, 8)):
+    for _ in range(rng.randrange(0, 8) if n_logs is None else n_logs):
         raw = logs.gen_event(rng, strings, [k for k in ('p', 'pid', 'send', 'sub') if rng.random() < 0.7])
         raw['tid'] = rng.choice(tids[:4])
         if 'p' in raw:
@@ -137,15 +137,33 @@ def check_history(res, rng, files):
     from pykdebugparser.pykdebugparser import PyKdebugParser
     p = PyKdebugParser()
     trail = []
-    for step in range(rng.randrange(2, 6)):
+    cur = {'tid': None, 'classes': [], 'subs': []}
+    for step in range(rng.randrange(2, 7)):
         f = rng.choice(files)
-        cfg = gen_config(rng, f)
-        p.filter_tid = cfg['tid']
-        if rng.random() < 0.5 and isinstance(p.filter_class, list) and isinstance(cfg['classes'], list):
-            p.filter_class[:] = cfg['classes']        # edited in place, as a long-lived caller may do
-        else:
-            p.filter_class = cfg['classes']
-        p.filter_subclass = cfg['subs']
+        new = gen_config(rng, f)
+        # a caller changes any non-empty subset of the three settings, in any order; what it leaves alone stays as set
+        attrs = rng.sample(('tid', 'classes', 'subs'), rng.choice((1, 1, 2, 3))) if step else ['tid', 'classes', 'subs']
+        if step and rng.random() < 0.4:
+            # overlapping class / subclass lists, then one of them changed alone
+            sub = rng.choice([wire.ref_decode(r)['eventid'] >> 16 for r in f['records'][:40]] or [0x040c])
+            new['classes'], new['subs'] = rng.choice(([sub >> 8], [], [sub >> 8, 0x21])), [sub] + list(new['subs'])[:1]
+        for a in attrs:
+            v = new[a]
+            if a == 'tid':
+                p.filter_tid = v
+            elif a == 'classes':
+                if rng.random() < 0.5 and isinstance(p.filter_class, list) and isinstance(v, list):
+                    p.filter_class[:] = v        # edited in place, as a long-lived caller may do
+                else:
+                    p.filter_class = v
+            else:
+                if rng.random() < 0.3 and isinstance(p.filter_subclass, list) and isinstance(v, list):
+                    p.filter_subclass[:] = v
+                else:
+                    p.filter_subclass = v
+            cur[a] = v
+            res.count(f'history_changed_{a}_alone' if len(attrs) == 1 else 'history_changed_several')
+        cfg = dict(cur)
         trail.append({k: (list(v) if isinstance(v, tuple) else v) for k, v in cfg.items()})
         case = {'file': f['data'], 'configs': trail}
         try:
@@ -255,6 +273,17 @@ def run(ctx):
             recent.append(f)
             if len(recent) >= 2:
                 check_history(res, rng, recent[-3:])
+        # scale ladder: listings of thousands of events / log records (batching, caps and caches show only then)
+        if ctx.shard == 0:
+            for kind, nr, nl in ctx.pick((('v2', 5000, 0), ('v3', 5000, 1500)), (('v2', 70000, 0), ('v3', 70000, 5000))):
+                f = gen_file(rng, nr, nl, kind)
+                check_events(res, f, {'tid': None, 'classes': [], 'subs': []})
+                for _ in range(4):
+                    check_events(res, f, gen_config(rng, f))
+                if kind == 'v3':
+                    check_logs(res, f, rng)
+                check_cli(res, f, gen_config(rng, f), tmpdir)
+                res.count('large_listings')
     finally:
         try:
             os.rmdir(tmpdir)
@@ -270,6 +299,7 @@ def run(ctx):
     res.require('log_configurations', 10)
     res.require('cli_configurations', 3)
     res.require('history_requests', 20)
+    res.require('large_listings', 2)
     return res
 
 
